@@ -697,3 +697,32 @@ Definition limits_b (st : pool) : bool :=
 Definition pool_inv_b (st : pool) : bool :=
   gapless_b st && affordable_b st && disjoint_b st && union_b st && totals_b st && nonces_b st &&
   negb (p_panic st) && negb (p_fuel st).
+
+(* list.Ready leaves no executable head: when no queued nonce lies below the requested start (what
+   Forward(state nonce) and pending/queue disjointness guarantee), the first tx left in the queue
+   has a nonce strictly above the end of the promoted run *)
+Lemma sm_run_rest : forall l n a b, sorted l -> sm_run n l = (a, b) -> (forall x, In x l -> n <= t_nonce x) ->
+  match b with [] => True | y :: _ => n + N.of_nat (length a) < t_nonce y end.
+Proof.
+  unfold sorted. induction l as [|x r IH]; intros n a b Hs E Hlow; cbn [sm_run] in E; [inversion E; exact I|].
+  apply StronglySorted_inv in Hs. destruct Hs as [Hs Hf]. rewrite Forall_forall in Hf.
+  destruct (t_nonce x =? n) eqn:En.
+  - apply N.eqb_eq in En. destruct (sm_run (n + 1) r) as [a' b'] eqn:Er. inversion E; subst a b; clear E.
+    assert (H := IH (n + 1) a' b' Hs Er). cbn [length].
+    assert (Hl : forall y, In y r -> n + 1 <= t_nonce y) by (intros y Hy; pose proof (Hf y Hy) as Hlt; unfold nlt in Hlt; lia).
+    specialize (H Hl). destruct b' as [|y b'']; [exact I | lia].
+  - inversion E; subst a b. cbn [length]. apply N.eqb_neq in En. pose proof (Hlow x (or_introl eq_refl)). lia.
+Qed.
+
+Lemma list_ready_no_executable_head : forall start l rdy l', sorted (l_txs l) ->
+  (forall x, In x (l_txs l) -> start <= t_nonce x) -> list_ready start l = (rdy, l') ->
+  match l_txs l' with [] => True | y :: _ => start + N.of_nat (length rdy) < t_nonce y end.
+Proof.
+  intros start l rdy l' Hs Hlow E. unfold list_ready, sm_ready in E. destruct (l_txs l) as [|x r] eqn:El.
+  - inversion E; subst. cbn [with_txs l_txs]. exact I.
+  - destruct (start <? t_nonce x) eqn:Es.
+    + inversion E; subst. cbn [with_txs l_txs length]. apply N.ltb_lt in Es. lia.
+    + apply N.ltb_ge in Es. pose proof (Hlow x (or_introl eq_refl)) as Hx. assert (Hxe : t_nonce x = start) by lia.
+      destruct (sm_run (t_nonce x) (x :: r)) as [a b] eqn:Er. inversion E; subst rdy l'. cbn [with_txs l_txs].
+      rewrite <- Hxe. apply (sm_run_rest (x :: r) (t_nonce x) a b Hs Er). intros y Hy. rewrite Hxe. apply Hlow, Hy.
+Qed.
